@@ -6,13 +6,15 @@ finishRequest on both sides — and the predicate `Transparent` that collects wh
 namespace Rivaas.C15
 open Rivaas.Http Rivaas.Compress
 
-/-- what C15 demands of the exchange with the middleware (`W`) against the one without (`P`) -/
-structure Transparent (W : WithResp) (P : Base × List WOut) : Prop where
+/-- what C15 demands of the exchange with the middleware (`W`) against the one without (`P`);
+    `enc` is the encoding the middleware was set up with for this request -/
+structure Transparent (enc : Bytes) (W : WithResp) (P : Base × List WOut) : Prop where
   noPanic : W.panicked = P.1.panicked
   status : W.resp.status = P.1.resp.status
   headers : ∀ k, k ≠ kCE → k ≠ kCL → k ≠ kVary → hget W.resp.hdrs k = hget P.1.resp.hdrs k
   body : W.decoded = some P.1.resp.body
   outs : W.outs = P.2
+  coding : hget W.resp.hdrs kCE = hget P.1.resp.hdrs kCE ∨ hget W.resp.hdrs kCE = some [enc]
 
 theorem lemma_final_pass (sn : Sniff) (a b : Base) (h : PassRel a b) :
     (a.finish sn).resp = (b.finish sn).resp ∧ (a.finish sn).panicked = (b.finish sn).panicked := by
@@ -31,7 +33,7 @@ theorem lemma_final_cmp (sn : Sniff) (w : CW) (p : Base) (core : CmpCore sn w p)
     let P := p.finish sn
     b.panicked = P.panicked ∧ b.resp.status = P.resp.status ∧
     (∀ k, k ≠ kCE → k ≠ kCL → k ≠ kVary → hget b.resp.hdrs k = hget P.resp.hdrs k) ∧
-    b.body = [] ∧ plainOf w.evs = P.resp.body := by
+    b.body = [] ∧ plainOf w.evs = P.resp.body ∧ hget b.resp.hdrs kCE = some [w.enc] := by
   obtain ⟨hd, hc, hw, nr, hs, cl, encne, bw, bst, pw, nb, bb, bct, bpn, pp, pl, T, hsnap, hT⟩ := core
   obtain ⟨f1, f2, f3, f4, f5, f6, f7⟩ := lemma_base_flush_cases sn p pw
   obtain ⟨g1, g2, g3, g4, g5, g6⟩ := lemma_cmp_base_flush sn w.base p.snap T w.enc encne bw hsnap bct
@@ -43,7 +45,7 @@ theorem lemma_final_cmp (sn : Sniff) (w : CW) (p : Base) (core : CmpCore sn w p)
       simp only [hsent', Bool.false_eq_true, if_false] at hT ⊢; exact hT
   have h304 := lemma_status_ne_304 p.status nb
   simp only [Base.finish]
-  refine ⟨by rw [g6, f5, bpn, pp], ?_, ?_, by rw [g4, bb], ?_⟩
+  refine ⟨by rw [g6, f5, bpn, pp], ?_, ?_, by rw [g4, bb], ?_, ?_⟩
   · simp only [Base.resp, g2, f2, bst]
   · intro k h1 h2 h3
     simp only [Base.resp, g2, bst, f2, h304, g3, g5, f3, hT', hsnap, Bool.false_eq_true, if_false]
@@ -51,6 +53,11 @@ theorem lemma_final_cmp (sn : Sniff) (w : CW) (p : Base) (core : CmpCore sn w p)
     unfold cmpSnap
     rw [lemma_hget_hdel, if_neg h2, lemma_hget_hset, if_neg h3, lemma_hget_hset, if_neg h1]
   · simp only [Base.resp, f4, pl]
+  · simp only [Base.resp, g2, bst, h304, g3, g5, hsnap, Bool.false_eq_true, if_false]
+    have h1 : kCE ≠ kCL := by decide
+    have h2 : kCE ≠ kVary := by decide
+    unfold cmpSnap
+    rw [lemma_hget_hdel, if_neg h1, lemma_hget_hset, if_neg h2, lemma_hget_hset, if_pos rfl]
 
 theorem lemma_finish_panicked (sn : Sniff) (b : Base) : (b.finish sn).panicked = b.panicked := by
   cases b with
@@ -73,20 +80,20 @@ def respOf (sn : Sniff) (w : CW) (outs : List WOut) : WithResp :=
     { panicked := w.panicked, resp := b.resp, decoded := some b.resp.body, outs := outs }
 
 theorem lemma_respOf_pass (sn : Sniff) (w : CW) (p : Base) (outs : List WOut) (hc : w.compress = false)
-    (rel : PassRel w.base p) : Transparent (respOf sn w outs) (p.finish sn, outs) := by
+    (rel : PassRel w.base p) : Transparent w.enc (respOf sn w outs) (p.finish sn, outs) := by
   obtain ⟨r1, r2⟩ := lemma_final_pass sn w.base p rel
   unfold respOf
   simp only [hc, Bool.false_and, Bool.false_eq_true, if_false]
-  refine ⟨?_, by rw [r1], fun k _ _ _ => by rw [r1], by rw [r1], rfl⟩
+  refine ⟨?_, by rw [r1], fun k _ _ _ => by rw [r1], by rw [r1], rfl, Or.inl (by rw [r1])⟩
   simp only [CW.panicked]
   rw [← lemma_finish_panicked sn w.base, r2]
 
 theorem lemma_respOf_cmp (sn : Sniff) (w : CW) (p : Base) (outs : List WOut) (core : CmpCore sn w p) :
-    Transparent (respOf sn { w with closed := true } outs) (p.finish sn, outs) := by
-  obtain ⟨c1, c2, c3, c4, c5⟩ := lemma_final_cmp sn w p core
+    Transparent w.enc (respOf sn { w with closed := true } outs) (p.finish sn, outs) := by
+  obtain ⟨c1, c2, c3, c4, c5, c6⟩ := lemma_final_cmp sn w p core
   unfold respOf
   simp only [core.c, core.hw, Bool.and_self, if_true, c4, List.isEmpty_nil]
-  refine ⟨?_, c2, c3, ?_, rfl⟩
+  refine ⟨?_, c2, c3, ?_, rfl, Or.inr c6⟩
   · simp only [CW.panicked]
     rw [← lemma_finish_panicked sn w.base, c1]
   · simp only [CW.plain, c5]
@@ -111,7 +118,7 @@ theorem lemma_cw_close_und (sn : Sniff) (w : CW) (hd : w.decided = false) :
     net/http finishes both responses -/
 theorem lemma_close_transparent (sn : Sniff) (seen : Bool) (w : CW) (p : Base) (outs : List WOut)
     (h : Inv sn seen w p) :
-    Transparent (respOf sn (if w.restored then w else w.close sn) outs) (p.finish sn, outs) := by
+    Transparent w.enc (respOf sn (if w.restored then w else w.close sn) outs) (p.finish sn, outs) := by
   rcases h with ⟨hl, _⟩ | hr
   · have hnr := lemma_live_restored sn w p hl
     simp only [hnr, Bool.false_eq_true, if_false]
@@ -125,8 +132,7 @@ theorem lemma_close_transparent (sn : Sniff) (seen : Bool) (w : CW) (p : Base) (
           rw [nf]
           simp [CW.close, CW.start, CW.restoreHeader, hcm, hb, h0]
         rw [e]
-        apply lemma_respOf_pass sn _ p outs rfl
-        refine ⟨?_, fun _ => ?_⟩
+        refine lemma_respOf_pass sn { w with decided := true, compress := false, buffer := [] } p outs rfl ⟨?_, fun _ => ?_⟩
         · simp only
           rw [nf, hpe]
         · simp only
@@ -137,10 +143,12 @@ theorem lemma_close_transparent (sn : Sniff) (seen : Bool) (w : CW) (p : Base) (
         · obtain ⟨hc1, hce⟩ := hc
           subst hc1
           obtain ⟨core, hok⟩ := lemma_start_und_cmp sn w p hu h0 hce henc
-          generalize (w.start sn w.buffer true) = r at core hok ⊢
+          have henc2 := lemma_start_enc sn w w.buffer true
+          generalize (w.start sn w.buffer true) = r at core hok henc2 ⊢
           have e1 : (r.2 != Err.ok) = false := by rw [hok]; rfl
           have e2 : (r.1.compress && r.1.hasWriter) = true := by rw [core.c, core.hw]; rfl
           simp only [e1, Bool.false_eq_true, if_false, e2, if_true]
+          rw [← henc2]
           exact lemma_respOf_cmp sn r.1 p outs core
         · have hc' : c = false ∨ (hfirst p.snap kCE).isEmpty = false := by
             by_cases h1 : c = true
@@ -150,10 +158,12 @@ theorem lemma_close_transparent (sn : Sniff) (seen : Bool) (w : CW) (p : Base) (
               · simpa using h2
             · left; simpa using h1
           obtain ⟨pas, hok⟩ := lemma_start_und_pass sn w p c hu h0 hc'
-          generalize (w.start sn w.buffer c) = r at pas hok ⊢
+          have henc2 := lemma_start_enc sn w w.buffer c
+          generalize (w.start sn w.buffer c) = r at pas hok henc2 ⊢
           have e1 : (r.2 != Err.ok) = false := by rw [hok]; rfl
           have e2 : (r.1.compress && r.1.hasWriter) = false := by rw [pas.c]; rfl
           simp only [e1, Bool.false_eq_true, if_false, e2]
+          rw [← henc2]
           exact lemma_respOf_pass sn r.1 p outs pas.c pas.rel
     · rw [lemma_cw_close_decided sn w hp.d hp.c]
       exact lemma_respOf_pass sn w p outs hp.c hp.rel
